@@ -27,9 +27,14 @@ MANIFEST = {
             "Environment level: nested or flattened, every observation of an episode is a member of the space observation_space "
             "declares during THAT episode, the space does not change within an episode, and a constant schedule declares one space "
             "(C02_env_*); flattening a member gives a 0/1 vector whose length is a function of the space only. "
-            "PARTIAL (explicit decidable hypotheses, counterexamples proved): ACL-carrying components exclude num_rules above the "
-            "ACL's slots (F-6, open); flattened results exclude spaces with an empty sub-dictionary, which gymnasium refuses "
-            "(F-C02-2, open). Tie: enum members, Discrete sizes, clamps, status codes, default literals, threshold categorisers "
+            "F-6 and F-C02-2 are repaired, so no partial hypothesis is left on the ACL slot count, and the flatten guard of ProxyAgent "
+            "(modelled, EpisodeCfg.accepts) keeps out the spaces gymnasium cannot flatten. The flattened vector is also modelled in "
+            "gymnasium's OWN key order (Model/ObsFlat: Dict sorts a complete dict of comparable keys, keeps insertion order for keys "
+            "added afterwards - only NICObservation.space does that, regenerated fact - and for mixed str/int keys): membership, "
+            "flattenability and length are invariant under that re-ordering (C02_contains_gym, C02_flattenable_gym, C02_flatDim_gym) "
+            "and the vector an RL agent receives is a 0/1 vector of the declared length (C02_gym_flatten_length). Construction "
+            "includes the constructors' threshold validation where it happens (before truncation; RawObs.buildV, translated "
+            "_validate_thresholds). Tie: enum members, Discrete sizes, clamps, status codes, default literals, threshold categorisers "
             "(Gen/ObsEnums, Gen/ObsTables), the ORDER of events in every __init__ (pads/truncations precede every read by "
             "default_observation), no in-place write through default_observation / cached_obs in any observe, the exact bodies of "
             "PrimaiteGymEnv.agent / observation_space / action_space / _get_obs and no stored space attribute (Gen/ObsCfgTables; "
@@ -47,7 +52,7 @@ MANIFEST = {
     "technique": "Lean 4 theorems over an executable model of the observation classes and of their construction from the scenario; model tied by regenerated tables and a differential rig",
     "design_ref": "5/C02",
 }
-MODULES = ["PrimaiteModel.Props.C02", "PrimaiteModel.Props.C02Cfg"]
+MODULES = ["PrimaiteModel.Props.C02", "PrimaiteModel.Props.C02Cfg", "PrimaiteModel.Props.C02Flat"]
 EXE = "drv_c02"
 
 
@@ -263,6 +268,8 @@ def check_case(ctx: Ctx, name: str, case: dict, model: List[str]) -> bool:
         return False
     ctx.count("component:construction-" + impl[CFG_AT])
     if impl[CFG_AT] == "rejected":
+        if "threshold" in str(case.get("rejected", "")):
+            ctx.count("component:construction-rejected:thresholds-not-strictly-ascending (both sides)")
         return True
     # the object the model builds from the scenario's words is the object the implementation built
     if impl[SHOW_AT] != model[SHOW_AT]:
@@ -338,6 +345,8 @@ def env_recipes(ctx: Ctx, rng: Rng, truth: bool = False) -> List[dict]:
         # one recipe in five runs under the process-wide override `NetworkInterface.nmne_config = NMNEConfig(...)` (restored afterwards)
         kw.setdefault("nmne_override", rig.gen_nmne_settings(rng) if rng.chance(1, 5) else None)
         kw.setdefault("targeted", bool(truth))  # ground-truth runs: events inside the tick aimed at the counted leaves
+        # scripted "make every observed leaf non-default, THEN take the component away" (power off / delete / uninstall), see obs_env.saturate
+        kw.setdefault("takeaway", bool(truth) and kw.get("steps", steps) >= 14)
         out.append(dict({"family": family, "label": label, "traj_seed": rng.next(), "variant_seed": rng.next(), "episodes": eps, "steps": steps,
                          "truth": truth, "chaos": False}, **kw))
     for rel in scen:
